@@ -144,6 +144,9 @@ func ExportPrivateKey(keyPath string, passphrase []byte) ([]byte, error) {
 	}
 
 	// Decrypt the private key
+	if len(data.Nonce) != gcm.NonceSize() {
+		return nil, fmt.Errorf("key file is corrupted: nonce has %d bytes, expected %d", len(data.Nonce), gcm.NonceSize())
+	}
 	privKeyBytes, err := gcm.Open(nil, data.Nonce, data.PrivKeyEncrypted, nil)
 	if err != nil {
 		return nil, fmt.Errorf("failed to decrypt private key (wrong passphrase): %w", err)
@@ -349,6 +352,11 @@ func (s *FileSystemSigner) loadKeys(passphrase []byte) error {
 		return fmt.Errorf("failed to create GCM: %w", err)
 	}
 
+	// GCM panics on a nonce of the wrong length; a damaged file must yield an error instead
+	if len(data.Nonce) != gcm.NonceSize() {
+		return fmt.Errorf("key file is corrupted: nonce has %d bytes, expected %d", len(data.Nonce), gcm.NonceSize())
+	}
+
 	// Decrypt the private key
 	privKeyBytes, err := gcm.Open(nil, data.Nonce, data.PrivKeyEncrypted, nil)
 	if err != nil {
@@ -365,6 +373,13 @@ func (s *FileSystemSigner) loadKeys(passphrase []byte) error {
 	pubKey, err := crypto.UnmarshalEd25519PublicKey(data.PubKeyBytes)
 	if err != nil {
 		return fmt.Errorf("failed to unmarshal public key: %w", err)
+	}
+
+	// The public key is stored in the clear and is not covered by the authenticated encryption of the
+	// private key. It must be the public half of the decrypted private key, otherwise the signer would
+	// report a key (and an address) its own signatures do not verify under.
+	if !privKey.GetPublic().Equals(pubKey) {
+		return fmt.Errorf("key file is corrupted: stored public key does not belong to the private key")
 	}
 
 	// Set the keys
@@ -428,6 +443,11 @@ func fallbackDeriveKey(passphrase []byte, keyLen int) []byte {
 
 	key := make([]byte, keyLen)
 	copy(key, passphrase)
+	if len(passphrase) == 0 {
+		// no legacy file was ever written with an empty passphrase (the derivation below divides by its
+		// length); a file that lost its salt must lead to a decryption error, not to a panic
+		return key
+	}
 	for i := len(passphrase); i < keyLen; i++ {
 		key[i] = passphrase[i%len(passphrase)] ^ byte(i)
 	}
